@@ -184,6 +184,16 @@ KNOWN = [
     {"hosts": 2, "scripts": [
         S(1, ops=[("execd", 1e9, 2)]),
         S(0, ops=[("sleep", 1), ("suspend", 0), ("sleep", 3), ("resume", 0)])]},
+    # F-C11-c: an actor killed (here: its host is turned off) in the scheduling round in which it was created never terminates
+    {"hosts": 2, "scripts": [
+        S(0, ops=[("create", 1), ("sleep", 1)]),
+        S(1, initial=0, ops=[("sleep", 1)]),
+        S(0, ops=[("hostoff", 1), ("sleep", 2)])]},
+    # F-C11-d: two actors turn the same host on in the same scheduling round: every auto-restart actor is re-created twice
+    {"hosts": 2, "scripts": [
+        S(0, ops=[("sleep", 1), ("hostoff", 1), ("sleep", 1), ("hoston", 1), ("sleep", 2)]),
+        S(1, autorestart=1, ops=[("sleep", 1.5)]),
+        S(0, ops=[("sleep", 2), ("hoston", 1), ("sleep", 1)])]},
     # F-C11-b: set_kill_time twice, the later call asking for the earlier date: the first timer fires on a dead actor
     {"hosts": 2, "scripts": [
         S(1, onexit=1, ops=[("killtime", 5), ("killtime", 3), ("sleep", 10)]),
